@@ -28,10 +28,23 @@ def _cls(pm):
     from ..astutil import inline_helpers
     rel, c = pm.find_function(LL, "ListLinkedToModelingObj")
     raw = {f.name: f for f in c.body if isinstance(f, ast.FunctionDef)}
-    helpers = {n: f for n, f in raw.items() if n.startswith("_") and not n.startswith("__")}
+    # helpers of the class that are not part of the list API: private ones, and public steps such as
+    # `launch_update_from_mutated_copy(mutation)` shared by the mutators. They are spliced into the mutators that call
+    # them (two rounds), parameters replaced by the arguments, and what that makes constant is folded
+    # (methodcaller("append", v)(copy) -> copy.append(v), getattr(super(), "insert")(*pos, w) -> super().insert(i, w))
+    api = set(LIST_MUTATORS) | {"copy", "index", "count", "sort", "reverse", "__iadd__", "__contains__",
+                                        "__getitem__", "__iter__", "__len__", "__eq__", "__init__", "after_init",
+                                        "set_modeling_obj_container", "to_json", "__repr__", "__str__",
+                                        "return_copy_with_same_attributes", "check_value_type"}
+    helpers = {n: f for n, f in raw.items() if (n.startswith("_") and not n.startswith("__")) or n not in api}
     ms = {}
     for n, f in raw.items():
-        ms[n] = inline_helpers(f, lambda name: helpers.get(name)) if helpers and n not in helpers else f
+        if helpers and n not in helpers:
+            g = inline_helpers(f, lambda name: helpers.get(name), max_body=30)
+            g = inline_helpers(g, lambda name: helpers.get(name), max_body=30)
+            ms[n] = g
+        else:
+            ms[n] = f
     return rel, c, ms
 
 
@@ -237,7 +250,9 @@ def r_listsib(E):
             continue
         new_arg = norm(mu[0].args[0]) if mu[0].args else ""
         if m == "clear":
-            ok = new_arg.endswith(", []]]") and real == ("clear", [])
+            # the new content is the empty list, written as a literal or as a copy that is cleared
+            ok = real == ("clear", []) and (new_arg.endswith(", []]]") or (
+                shadow == ("clear", []) and bool(_shadow_name(fn)) and _shadow_name(fn) in new_arg))
         elif m == "extend":
             loop = next((n for n in ast.walk(fn) if isinstance(n, ast.For)), None)
             from ..astutil import fully_expanded as _fx
@@ -294,7 +309,7 @@ def r_listsib(E):
                 W0 = "ContextualModelingObjectAttribute("
                 rargs = [a[len(W0):-1] if a.startswith(W0) and a.endswith(")") else a for a in real[1]]
                 ok = shadow[0] == real[0] == m and sargs == rargs
-        if ok and _shadow_name(fn) not in new_arg and "list(self) +" not in new_arg and m != "clear":
+        if ok and m != "clear" and _shadow_name(fn) not in new_arg and "list(self) +" not in new_arg:
             ok = False
         if not ok:
             res.findings.append(Finding(
